@@ -228,6 +228,7 @@ def imgRef? : Sx → Option Doc.ImgRef
       | .atom "liststyle" => some .listStyle
       | .atom "content" => some .content
       | .atom "borderimage" => some .borderImage
+      | .atom "maskborder" => some .maskBorder
       | _ => none
     pure ⟨kind, ← ostr? u, ← ostr? a, ← orient? o, ← ostr? m, none⟩
   | _ => none
@@ -442,7 +443,7 @@ def tagsFor (cmd : String) (args : List Sx) : Option (List String) :=
         | .ok _, .error _ => ["doc:write-escapes"]
         | _, _ => []) ++
       (if o.opens.isEmpty then [] else ["doc:local-file-read"]) ++
-      ((d.images.filterMap (Doc.svgOfRef d.opts cache)).flatMap (fun kc => svgTags d.fetcher d.opts cache ((d.svgInfo.lookup kc.2).getD []))))
+      (((Doc.paintOrder d.images).filterMap (Doc.svgOfRef d.opts cache)).flatMap (fun kc => svgTags d.fetcher d.opts cache ((d.svgInfo.lookup kc.2).getD []))))
   | _, _ => none
 
 /-! ### commands -/
